@@ -344,17 +344,26 @@ def check_c06_end(w):
 
 
 def check_c07(w):
-    from s3transfer.exceptions import FatalError
     for t in w.transfers:
         ev = t['cancel']
         oc = t['outcome']
-        if ev is None or oc is None:
+        if oc is None:
+            continue
+        evs = [e for e in w.cancel_events if e['t'] == t['idx']]
+        nat = t.get('natural')
+        # a transfer whose done callbacks saw success keeps that result
+        if nat is not None and nat[0] == 'success' and oc[0] == 'exc' \
+                and not user_overrode(t):
+            w.violation('C07', 'finished-result-changed',
+                        't%d had finished successfully (on_done saw status success) but '
+                        'result() raises %r' % (t['idx'], oc[1]))
+            continue
+        if ev is None:
             continue
         if user_overrode(t):
             continue      # a user callback replaced the outcome explicitly
         fatal, retry_fired, exhausted = fatal_set(w, t)
         st = ev['status']
-        want_type = FatalError if ev['exc_type'] == 'FatalError' else CancelledError
         n_calls = len(recs_of(w, t))
         if st in ('success',) and ev['exact']:
             if oc[0] != 'ok':
@@ -365,10 +374,9 @@ def check_c07(w):
         if st in ('failed', 'cancelled') and ev['exact']:
             if oc[0] != 'exc' or (ev.get('exc_before') is not None and
                                   oc[1] is not ev['exc_before']):
-                if not t['spec'].get('_reenter_set_exception'):
-                    w.violation('C07', 'finished-result-changed',
-                                't%d had already %s with %r when cancelled but outcome is %r'
-                                % (t['idx'], st, ev.get('exc_before'), oc[1:2]))
+                w.violation('C07', 'finished-result-changed',
+                            't%d had already %s with %r when cancelled but outcome is %r'
+                            % (t['idx'], st, ev.get('exc_before'), oc[1:2]))
             continue
         # not finished at the cancel (or inexact snapshot)
         if oc[0] == 'ok':
@@ -379,23 +387,18 @@ def check_c07(w):
             continue
         e = oc[1]
         if _is_cancel_exc(e):
-            if ev['how'] in ('interrupt-result',):
-                if type(e) is not CancelledError and not (
-                        type(e).__name__ == 'CancelledError'):
-                    w.violation('C07', 'cancel-type',
-                                't%d: Ctrl-C produced %r' % (t['idx'], e))
-            else:
-                if type(e) is not want_type and not ev['how'] == 'interrupt':
-                    # a later different cancel can only apply if this one did not
-                    if ev['exact']:
-                        w.violation('C07', 'cancel-type',
-                                    't%d cancelled via %s: got %s, want %s'
-                                    % (t['idx'], ev['how'], type(e).__name__,
-                                       want_type.__name__))
-                if ev['msg'] is not None and str(e) != ev['msg'] and ev['exact']:
-                    w.violation('C07', 'cancel-message',
-                                't%d cancelled via %s with message %r but error says %r'
-                                % (t['idx'], ev['how'], ev['msg'], str(e)))
+            # the error must be the one some cancellation of this transfer asked
+            # for: exact class (FatalError only for a non-interrupt exception in
+            # the with-block) and the given message
+            allowed = [(x['exc_type'], x['msg']) for x in evs]
+            if t['spec'].get('_reenter_cancel'):
+                allowed.append(('CancelledError', ''))
+            got = (type(e).__name__, str(e))
+            if not any(got[0] == a and (m is None or got[1] == m) for a, m in allowed):
+                w.violation('C07', 'cancel-type-or-message',
+                            't%d finished with %s(%r); the cancellation(s) issued were %r'
+                            % (t['idx'], got[0], got[1],
+                               [(x['how'], a, m) for x, (a, m) in zip(evs, allowed)]))
         else:
             if not (fatal or exhausted) and ev['exact']:
                 w.violation('C07', 'cancel-not-reported',
@@ -434,9 +437,11 @@ def check_c08(w):
         for f in fired_for(w, t):
             if f['spec']['site'] == 'cb' and f['spec'].get('kind') == 'queued':
                 qfault_sub = f['spec'].get('sub')
-        cancelled_unstarted = (t['cancel'] is not None and not rs and
-                               t['outcome'][0] == 'exc' and
-                               _is_cancel_exc(t['outcome'][1]))
+        nat = t.get('natural')
+        was_cancelled = (t['outcome'][0] == 'exc' and _is_cancel_exc(t['outcome'][1])) \
+            or (nat is not None and nat[0] == 'cancelled')
+        cancelled_unstarted = (t['cancel'] is not None or
+                               t['spec'].get('_reenter_cancel')) and not rs and was_cancelled
         for si in range(nsubs):
             q = [c for c in cbs if c[1] == 'queued' and c[2] == si]
             d = [c for c in cbs if c[1] == 'done' and c[2] == si]
@@ -446,9 +451,8 @@ def check_c08(w):
             if len(q) == 0:
                 excused = cancelled_unstarted or (
                     qfault_sub is not None and si > qfault_sub)
-                if t['cancel'] is not None and t['outcome'][0] == 'exc' and \
-                        _is_cancel_exc(t['outcome'][1]) and not any(
-                            c[1] == 'queued' for c in cbs):
+                if t['cancel'] is not None and was_cancelled and not any(
+                        c[1] == 'queued' for c in cbs):
                     excused = excused or not rs
                 if not excused:
                     w.violation('C08', 'queued-missing',
@@ -634,6 +638,7 @@ def check_c18(w):
                 and not t['spec'].get('_reenter_set_exception') \
                 and not t['spec'].get('_reenter_cancel'):
             cls = 'fresh-transfer-failed' if t.get('fresh') else 'neighbour-affected'
+            w.probe('spurious-failure')
             w.violation('C18', cls,
                         't%d %s had no fault and no cancel of its own but failed with %r'
                         % (t['idx'], t['type'], oc[1]))
